@@ -143,7 +143,12 @@ fn preprocess_inner<T: AsRef<Path>, U: AsRef<Path>, V: BuildHasher>(
     include_depth: usize,
 ) -> Result<(PreprocessedText, Defines), Error> {
 
-    let f = File::open(path.as_ref()).map_err(|x| Error::File {
+    #[cfg(sv_parser_verif)]
+    let _verif_scope = sv_parser_parser::verif::Scope::new(
+        sv_parser_parser::verif::SCOPE_FILE,
+        &path.as_ref().to_string_lossy(),
+    );
+    let f = open_file(path.as_ref()).map_err(|x| Error::File {
         source: x,
         path: PathBuf::from(path.as_ref()),
     })?;
@@ -164,6 +169,26 @@ fn preprocess_inner<T: AsRef<Path>, U: AsRef<Path>, V: BuildHasher>(
             include_depth,
         )
     }
+}
+
+#[cfg(not(sv_parser_verif))]
+fn open_file(path: &Path) -> std::io::Result<File> {
+    File::open(path)
+}
+
+#[cfg(not(sv_parser_verif))]
+fn path_exists(path: &Path) -> bool {
+    path.exists()
+}
+
+#[cfg(sv_parser_verif)]
+fn open_file(path: &Path) -> std::io::Result<Box<dyn Read>> {
+    sv_parser_parser::verif::open(path)
+}
+
+#[cfg(sv_parser_verif)]
+fn path_exists(path: &Path) -> bool {
+    sv_parser_parser::verif::exists(path)
 }
 
 struct SkipNodes<'a> {
@@ -674,10 +699,10 @@ pub fn preprocess_str<T: AsRef<Path>, U: AsRef<Path>, V: BuildHasher>(
                 //
                 // In this implementation, filenames enclosed in angle brackets are
                 // treated equivalently to those enclosed in double quotes.
-                if path.is_relative() && !path.exists() {
+                if path.is_relative() && !path_exists(&path) {
                     for include_path in include_paths {
                         let new_path = include_path.as_ref().join(&path);
-                        if new_path.exists() {
+                        if path_exists(&new_path) {
                             path = new_path;
                             break;
                         }
@@ -914,6 +939,9 @@ fn resolve_text_macro_usage<T: AsRef<Path>, U: AsRef<Path>>(
 ) -> Result<Option<(String, Option<(PathBuf, Range)>, Defines)>, Error> {
     let (_, ref name, ref args) = x.nodes;
     let id = identifier((&name.nodes.0).into(), &s).unwrap();
+    #[cfg(sv_parser_verif)]
+    let _verif_scope =
+        sv_parser_parser::verif::Scope::new(sv_parser_parser::verif::SCOPE_MACRO, &id);
 
     if resolve_depth > RECURSIVE_LIMIT {
         return Err(Error::ExceedRecursiveLimit);
